@@ -962,7 +962,7 @@ def run(ctx: Ctx, proofs_ok: bool):
             break
     for c, m in zip(scodes, smeta):
         if c // 10 ** 6 == 2:
-            ctx.broken.append("model: a builder-supported k-opt action yields a non-tour (k=%d tour=%s) -- contradicts C09_k_opt_valid_partial" % (m["k"], m["tour"]))
+            ctx.broken.append("model: a builder-supported k-opt action yields a non-tour (k=%d tour=%s) -- contradicts C09_k_opt_valid" % (m["k"], m["tour"]))
             break
 
     for unit, rows in col.rows.items():
